@@ -634,6 +634,94 @@ fn gen_history(rng: &mut SplitMix, focus: &str) -> History {
     }
 }
 
+
+/// C10 boundary sweep for the ws storage: peer expiry and pending-offer expiry.
+/// Peers: `size` connections announce; the watched one optionally re-announces at an offset; cleans at
+/// deadline-1 / deadline / deadline+1 with observer read-out. Offers: peer 0 offers to its only other
+/// peer 1, cleans around the offer deadline, then peer 1 answers (forwarded iff not yet dropped by a pass).
+fn gen_sweep(index: u64) -> Option<History> {
+    let ages: [u32; 7] = [1, 2, 3, 180, u32::MAX / 2, u32::MAX - 1, u32::MAX];
+    let offer_ages: [u32; 5] = [0, 1, 2, 120, u32::MAX - 1];
+    let t0s: [u32; 3] = [0, 1000, u32::MAX - 3];
+    let sizes: [usize; 4] = [1, 2, 5, 9];
+    let mut i = index;
+    let age = ages[(i % 7) as usize];
+    i /= 7;
+    let t0 = t0s[(i % 3) as usize];
+    i /= 3;
+    let size = sizes[(i % 4) as usize];
+    i /= 4;
+    let seeder = i % 2 == 0;
+    i /= 2;
+    let re = (i % 5) as usize;
+    i /= 5;
+    let offer_age = offer_ages[(i % 5) as usize];
+    i /= 5;
+    let kind = i % 2; // 0 peers, 1 offers
+    i /= 2;
+    if i > 0 {
+        return None;
+    }
+    let mut ops = Vec::new();
+    let mut clock = t0 as u64;
+    let n = if kind == 1 { 2 } else { size };
+    let conns: Vec<(u8, bool)> = (0..n.max(2)).map(|c| ((c % 2) as u8, false)).collect();
+    let target = n - 1;
+    for c in 0..n {
+        ops.push(Op::Announce { conn: c, t: 0, pid: c, event: 1, left: if (c == target) == seeder { 1 } else { 2 }, offers: None, answer: None });
+    }
+    if kind == 0 {
+        let mut issue = clock;
+        let re_off: Option<u64> = match re {
+            0 => None,
+            1 => Some(0),
+            2 => Some(1),
+            3 => Some((age as u64).saturating_sub(1)),
+            _ => Some(age as u64),
+        };
+        if let Some(off) = re_off {
+            if clock + off < u32::MAX as u64 - 2 {
+                ops.push(Op::Clean { advance: off as u32 });
+                clock += off;
+                ops.push(Op::Announce { conn: target, t: 0, pid: target, event: 0, left: if seeder { 1 } else { 2 }, offers: None, answer: None });
+                issue = clock;
+            }
+        }
+        let deadline = issue + age as u64;
+        let mut last = clock;
+        for instant in [deadline.saturating_sub(1), deadline, deadline + 1] {
+            if instant < last || instant > u32::MAX as u64 - 1 {
+                continue;
+            }
+            ops.push(Op::Clean { advance: (instant - last) as u32 });
+            last = instant;
+            ops.push(Op::Observe { t: 0, v6: false });
+            ops.push(Op::Scrape { conn: 0, ts: Some(vec![0]), single: true });
+        }
+    } else {
+        // peer 0 offers (offer id `re`) to its only other peer; clean at offer deadline - 1 / deadline / + 1 (chosen by `size` slot); then the answer
+        let which = [0u64, 1, 2, 3][sizes.iter().position(|s| *s == size).unwrap()];
+        ops.push(Op::Announce { conn: 0, t: 0, pid: 0, event: 0, left: 2, offers: Some(vec![re]), answer: None });
+        let odl = clock + offer_age as u64;
+        let instant = match which {
+            0 => None, // no clean at all: expired-but-uncleaned offers still count
+            1 => Some(odl.saturating_sub(1)),
+            2 => Some(odl),
+            _ => Some(odl + 1),
+        };
+        if let Some(inst) = instant {
+            // the peers themselves must survive the pass: only meaningful when the peer age outlives it
+            if inst >= clock && inst < u32::MAX as u64 - 1 && inst < clock + age as u64 {
+                ops.push(Op::Clean { advance: (inst - clock) as u32 });
+            }
+        }
+        ops.push(Op::Announce { conn: 1, t: 0, pid: 1, event: 0, left: 2, offers: None, answer: Some((0, re)) });
+        // and a second answer to the same offer must be refused
+        ops.push(Op::Announce { conn: 1, t: 0, pid: 1, event: 0, left: 2, offers: None, answer: Some((0, re)) });
+    }
+    Some(History { max_offers: 10, max_scrape_torrents: 10, max_peer_age: age, max_offer_age: offer_age, start_clock: t0, mode: 0, initial_list: vec![], n_torrents: 1, n_pids: 9, n_oids: 5, conns, rng_seed: index, ops })
+}
+
 fn relevant(property: &str, clause: &str) -> bool {
     match property {
         "C08" => matches!(clause, "counts" | "ownership" | "membership" | "scrape" | "reply" | "routing" | "panic"),
@@ -667,6 +755,38 @@ fn main() {
                 report.violation(&f.signature, f.clause, f.detail, json!({"engine":"ws_swarm","history": h, "failing_op": f.op_index}));
             }
         }
+        report.finish(&args.out());
+    }
+    if args.get("mode") == Some("sweep") {
+        let mut idx = 0u64;
+        let mut ops = 0u64;
+        while let Some(h) = gen_sweep(idx) {
+            let mut shape = Shape::default();
+            match run_history(&h, &mut shape) {
+                Ok(n) => ops += n,
+                Err(f) => {
+                    if relevant(&property, f.clause) {
+                        let mut hh = h.clone();
+                        hh.ops.truncate(f.op_index + 1);
+                        report.violation(&f.signature, f.clause, format!("boundary sweep case {}: {}", idx, f.detail), json!({"engine":"ws_swarm","history": hh, "failing_op": f.op_index, "sweep_index": idx}));
+                    }
+                }
+            }
+            if shape.nontrivial {
+                report.nontrivial(vcore::fnv(&idx.to_le_bytes()));
+            }
+            for (k, v) in shape.counters {
+                report.add(k, v);
+            }
+            if idx == 2100 || idx == 3000 {
+                report.sample(serde_json::to_value(&h).unwrap());
+            }
+            idx += 1;
+        }
+        report.evals(ops);
+        report.add("sweep_cases", idx);
+        report.extra.insert("exhaustive".into(), json!(true));
+        report.rule = "deterministic boundary grid (ws storage, mock clock): peer expiry (7 max ages x 3 announce times x 4 swarm sizes x seeder/leecher x 5 re-announce offsets, cleans at deadline-1/deadline/deadline+1) and pending-offer expiry (5 offer ages x clean before/at/after the offer deadline or not at all, then the answer twice) vs reference model; non-trivial = case with an expiry, a forwarded or a refused answer; distinct = grid index".into();
         report.finish(&args.out());
     }
     let seed = args.seed();
